@@ -104,6 +104,7 @@ func gen(tier string, seed int64) []hx.Scenario {
 			}
 		}
 	}
+	out = append(out, rabScenarios(tier)...)
 	_ = fmt.Sprint
 	return out
 }
